@@ -46,7 +46,7 @@ def run(c):
             for m in meta["edits"]:
                 c.count("safe-edit:" + m["kind"])
     c.extra["rule"] = ("random base schemas (prelude + generic library + 2..6 random types incl. unions, nat/Type template arguments, "
-                       "masks, repeats, 0..3 functions) x {identity, 3 random sequences of 1..4 documented safe edits, 8 single unsafe "
+                       "masks, repeats, 0..3 functions; # arguments in 1st and 2nd position flowing through 2 and 3 template levels; half of them with a planted 2-mask combinator) x {identity, 3 random sequences of 1..4 documented safe edits incl. several appends under different masks in one comparison, 8 single unsafe "
                        "edits, 2 mixed sequences} + the repository's samples; the C29 oracle (verdict = accept) is applied to identity, "
                        "safe sequences and correct-changes samples; every line is also a model-vs-code verdict comparison; distinct = "
                        "distinct line text")
